@@ -8,6 +8,7 @@ import (
 	"math/rand"
 	"os"
 	"path/filepath"
+	"strings"
 
 	oci "github.com/opencontainers/runtime-spec/specs-go"
 	"golang.org/x/sys/unix"
@@ -177,6 +178,58 @@ func genOCI(r *rand.Rand) *oci.Spec {
 			h.Poststop = []oci.Hook{ociHook("poststop", 0)}
 		}
 		s.Hooks = h
+	}
+	return s
+}
+
+// hostileOCI is an OCI spec as a careless or hostile caller may hand it over:
+// what genOCI makes, with members that are empty, relative, repeated or odd.
+// (An OCI spec is caller data: no shape of it may make the library panic.)
+func hostileOCI(r *rand.Rand) *oci.Spec {
+	s := genOCI(r)
+	for k := 1 + r.Intn(4); k > 0; k-- {
+		switch r.Intn(9) {
+		case 0:
+			dest := pickStr(r, "", ".", "..", "rel/x", "//", "/a/../..", "/", " ", "a", "/x\x00y", strings.Repeat("/d", 3000))
+			m := oci.Mount{Destination: dest, Source: "/src/h", Type: pickStr(r, "bind", "", "tmpfs")}
+			if len(s.Mounts) > 0 && chance(r, 50) {
+				i := r.Intn(len(s.Mounts) + 1)
+				s.Mounts = append(s.Mounts[:i], append([]oci.Mount{m}, s.Mounts[i:]...)...)
+			} else {
+				s.Mounts = append(s.Mounts, m)
+			}
+		case 1:
+			if s.Process == nil {
+				s.Process = &oci.Process{}
+			}
+			s.Process.Env = append(s.Process.Env, pickStr(r, "", "=", "NOEQ", "=v", "A==", "A", "\x00=1"), pickStr(r, "", "A=1", "A=1"))
+		case 2:
+			if s.Linux == nil {
+				s.Linux = &oci.Linux{}
+			}
+			s.Linux.Devices = append(s.Linux.Devices, oci.LinuxDevice{Path: pickStr(r, "", ".", "rel", "/dev/null", "/dev/null")}, oci.LinuxDevice{Path: pickStr(r, "", "/dev/null")})
+		case 3:
+			if s.Hooks == nil {
+				s.Hooks = &oci.Hooks{}
+			}
+			s.Hooks.Prestart = append(s.Hooks.Prestart, oci.Hook{})
+			s.Hooks.Poststop = append(s.Hooks.Poststop, oci.Hook{Path: "", Args: []string{}})
+		case 4:
+			if s.Linux == nil {
+				s.Linux = &oci.Linux{}
+			}
+			s.Linux.Resources = &oci.LinuxResources{Devices: []oci.LinuxDeviceCgroup{{}, {Type: "x", Access: "zzz"}}}
+		case 5:
+			s.Process = &oci.Process{} // nothing in it, not even a working directory
+		case 6:
+			s.Linux = &oci.Linux{IntelRdt: &oci.LinuxIntelRdt{}}
+		case 7:
+			s.Version, s.Root, s.Annotations = "", &oci.Root{}, map[string]string{"": ""}
+		default:
+			if s.Process != nil {
+				s.Process.User.AdditionalGids = append(s.Process.User.AdditionalGids, 0, 0, 4294967295, 0)
+			}
+		}
 	}
 	return s
 }
